@@ -13,6 +13,7 @@ import PyImpSpec.Registry
 import PyImpSpec.Columns
 import PyImpSpec.KKTau
 import PyImpSpec.KKAuto
+import PyImpSpec.Fit
 
 /-! Line-protocol driver: one request per line (`<model> <op> <args…>`), one canonical reply per line.
 Run with `lake env lean --run Driver/Main.lean`.  The harness sends the same inputs to the real
@@ -138,12 +139,56 @@ def pickReply (a : List String) : String :=
     | none => "err IndexError"
   | _ => "bad-op"
 
+/-! ### C12: parameter bookkeeping of circuit fitting -/
+
+def showRat (r : Rat) : String := if r.den = 1 then s!"{r.num}" else s!"{r.num}/{r.den}"
+def parseBound (s : String) : Fit.Bound := if s = "inf" || s = "-inf" then none else some (parseRat s)
+def showBound (neg : Bool) (b : Fit.Bound) : String := match b with | none => (if neg then "-inf" else "inf") | some r => showRat r
+
+/-- `id;sym:value:lo:hi:fixed,…|id;…` -/
+def parseCircuit (s : String) : Fit.Circuit :=
+  (s.splitOn "|").filterMap fun es => match es.splitOn ";" with
+    | [id, ps] => some ⟨id.toNat!, (splitList ps).filterMap fun p => match p.splitOn ":" with
+        | [sym, v, lo, hi, fx] => some ⟨sym, parseRat v, parseBound lo, parseBound hi, fx = "1"⟩
+        | _ => none⟩
+    | _ => none
+
+def fitReply (a : List String) : String :=
+  match a with
+  | ["tolmfit", c] =>
+    (match Fit.toLmfit (parseCircuit c) with
+     | .error e => s!"err {e}"
+     | .ok lps => "ok " ++ ",".intercalate (lps.map fun lp => s!"{lp.name.str}:{showRat lp.value}:{showBound true lp.min}:{showBound false lp.max}:{if lp.vary then 1 else 0}"))
+  | ["apply", c, sol] =>
+    let circ := parseCircuit c
+    let s : Fit.Sol := (splitList sol).filterMap fun kv => match kv.splitOn "=" with
+      | [k, v] => (match k.splitOn "@" with
+        | [sym, id] => some ((sym, id.toNat!), parseRat v)
+        | _ => none)
+      | _ => none
+    (match Fit.toLmfit circ with
+     | .error e => s!"err {e}"
+     | .ok lps =>
+       let c2 := Fit.fromLmfit s circ
+       let tbl := Fit.extract (Fit.varNames lps) s c2
+       "ok " ++ "|".intercalate (c2.map fun e => s!"{e.id};" ++ ",".intercalate (e.ps.map fun p => s!"{p.sym}:{showRat p.value}"))
+         ++ " " ++ "|".intercalate (tbl.map fun (id, rows) => s!"{id};" ++ ",".intercalate (rows.map fun r => s!"{r.sym}:{showRat r.value}:{if r.fixed then 1 else 0}")))
+  | ["best", chis] =>
+    let l : List Fit.Res := (splitList chis).zipIdx.map fun (c, i) => ⟨i, if c = "-" then none else some c.toInt!⟩
+    (match Fit.pick l with
+     | .ok r => s!"ok {r.tag}"
+     | .error e => s!"err {e}")
+  | _ => "bad-op"
+
 /-- analysis kernels on complex arguments: `kerc <name> Z_exp=re;im Z_fit=re;im` -/
 def kercReply (name : String) (binds : List String) : String :=
   let tbl : List (String × E) := [("residual", Gen.K.residual), ("boukampWeight", Gen.K.boukampWeight), ("chisqrTerm", Gen.K.chisqrTerm),
     ("kk_kth_Y", Gen.K.kk_kth_Y), ("kk_kth_Z", Gen.K.kk_kth_Z), ("kk_cap_Y", Gen.K.kk_cap_Y), ("kk_cap_Z", Gen.K.kk_cap_Z),
     ("kk_ind_Y", Gen.K.kk_ind_Y), ("kk_ind_Z", Gen.K.kk_ind_Z),
     ("zhit_rec_Y", Gen.K.zhit_rec_Y), ("zhit_rec_Z", Gen.K.zhit_rec_Z), ("zhit_offset_residual", Gen.K.zhit_offset_residual),
+    ("fit_err_re", Gen.K.fit_err_re), ("fit_err_im", Gen.K.fit_err_im), ("fit_w_unity_re", Gen.K.fit_w_unity_re), ("fit_w_unity_im", Gen.K.fit_w_unity_im),
+    ("fit_w_modulus_re", Gen.K.fit_w_modulus_re), ("fit_w_modulus_im", Gen.K.fit_w_modulus_im), ("fit_w_proportional_re", Gen.K.fit_w_proportional_re),
+    ("fit_w_proportional_im", Gen.K.fit_w_proportional_im), ("fit_w_boukamp_re", Gen.K.fit_w_boukamp_re), ("fit_w_boukamp_im", Gen.K.fit_w_boukamp_im),
     ("est_pct_noise", Gen.K.est_pct_noise), ("est_pseudo_chisqr", Gen.K.est_pseudo_chisqr), ("noise_sd", Gen.K.noise_sd)]
   match tbl.find? (·.1 = name) with
   | none => "err no-kernel"
@@ -499,6 +544,7 @@ def step (st : DState) (line : String) : DState × String :=
   | ["tau", wmin, wmax, fext, n, k] => (st, s!"ok {(KKTau.tau KKTau.floatOps (parseFloat wmin) (parseFloat wmax) (parseFloat fext) n.toNat! k.toNat!).toBits}")
   | "kerc" :: name :: binds => (st, kercReply name binds)
   | "lim" :: a => (st, limReply a)
+  | "fit" :: a => (st, fitReply a)
   | "pick" :: a => (st, pickReply a)
   | "ker" :: which :: sym :: binds => (st, kerReply which sym binds)
   | "imp" :: n :: toks => (st, impReply n.toNat! toks)
